@@ -75,6 +75,9 @@ var (
 )
 
 var sites []siteInfo
+
+// pkgVars[module-relative dir][name] = a package-level variable of that name exists
+var pkgVars = map[string]map[string]bool{}
 var skippedRanges []string
 
 // packages (module-relative dir) that are never instrumented.
@@ -218,6 +221,22 @@ func main() {
 		if _, err := conf.Check(p.ImportPath, fset, files, info); err != nil && *verbose {
 			fmt.Fprintf(os.Stderr, "simgen: typecheck %s: %v (continuing)\n", p.ImportPath, err)
 		}
+		for _, f := range files {
+			for _, d := range f.Decls {
+				if gd, ok := d.(*ast.GenDecl); ok && gd.Tok == token.VAR {
+					for _, sp := range gd.Specs {
+						if vs, ok := sp.(*ast.ValueSpec); ok {
+							for _, n := range vs.Names {
+								if pkgVars[rel] == nil {
+									pkgVars[rel] = map[string]bool{}
+								}
+								pkgVars[rel][n.Name] = true
+							}
+						}
+					}
+				}
+			}
+		}
 		for i, f := range files {
 			fn := fset.Position(f.Pos()).Filename
 			res, changed := rewriteFile(fset, f, srcs[i], rel, info, false)
@@ -261,40 +280,36 @@ func main() {
 
 	// 3b. a reset hook for process-wide state inside internal/corazawaf (a new
 	// file in an existing package; nothing in the repository refers to it)
-	resetSrc := `package corazawaf
-
-// VerifResetGlobals restores the process-wide state of this package to its
-// initial value, so that every simulated run starts from the state of a fresh
-// process (added by the build overlay; simulation only).
-func VerifResetGlobals() {
-	transformationIDsLock.Lock()
-	transformationIDToName = []string{""}
-	transformationNameToID = map[string]int{"": 0}
-	transformationIDsLock.Unlock()
-	wafIDCounter.Store(0)
-}
-`
+	// Only identifiers that still exist are reset, so that a refactoring of these
+	// internals degrades replay fidelity instead of breaking the build.
+	has := func(dir, name string) bool { return pkgVars[dir][name] }
+	var body strings.Builder
+	if has("internal/corazawaf", "transformationIDsLock") && has("internal/corazawaf", "transformationIDToName") && has("internal/corazawaf", "transformationNameToID") {
+		body.WriteString("\ttransformationIDsLock.Lock()\n\ttransformationIDToName = []string{\"\"}\n\ttransformationNameToID = map[string]int{\"\": 0}\n\ttransformationIDsLock.Unlock()\n")
+	}
+	if has("internal/corazawaf", "wafIDCounter") {
+		body.WriteString("\twafIDCounter.Store(0)\n")
+	}
+	resetSrc := "package corazawaf\n\n// VerifResetGlobals restores the process-wide state of this package to its\n// initial value, so that every simulated run starts from the state of a fresh\n// process (added by the build overlay; simulation only).\nfunc VerifResetGlobals() {\n" + body.String() + "}\n"
 	rs := filepath.Join(gen, "internal", "corazawaf", "zz_verif_reset.go")
 	must(os.MkdirAll(filepath.Dir(rs), 0o755))
 	must(os.WriteFile(rs, []byte(resetSrc), 0o644))
 	overlay[filepath.Join(*repo, "internal", "corazawaf", "zz_verif_reset.go")] = rs
 
-	memoReset := `//go:build !tinygo && !coraza.no_memoize
-
-package memoize
-
-import (
-	sync "github.com/corazawaf/coraza/v3/verifrt/simsync"
-	"github.com/corazawaf/coraza/v3/verifrt/singleflight"
-)
-
-// VerifResetGlobals gives the process-wide cache the state of a fresh process
-// (added by the build overlay; simulation only).
-func VerifResetGlobals() {
-	cache = sync.Map{}
-	group = singleflight.Group{}
-}
-`
+	var mbody strings.Builder
+	mimports := ""
+	if has("internal/memoize", "cache") {
+		mbody.WriteString("\tcache = sync.Map{}\n")
+		mimports += "\tsync \"github.com/corazawaf/coraza/v3/verifrt/simsync\"\n"
+	}
+	if has("internal/memoize", "group") {
+		mbody.WriteString("\tgroup = singleflight.Group{}\n")
+		mimports += "\t\"github.com/corazawaf/coraza/v3/verifrt/singleflight\"\n"
+	}
+	if mimports != "" {
+		mimports = "import (\n" + mimports + ")\n\n"
+	}
+	memoReset := "//go:build !tinygo && !coraza.no_memoize\n\npackage memoize\n\n" + mimports + "// VerifResetGlobals gives the process-wide cache the state of a fresh process\n// (added by the build overlay; simulation only).\nfunc VerifResetGlobals() {\n" + mbody.String() + "}\n"
 	memoResetNoop := `//go:build tinygo || coraza.no_memoize
 
 package memoize
